@@ -175,7 +175,8 @@ def families(tier: str) -> list[Family]:
                               ["k", "j"]]))
     wr_elems = [{"k": 1}, {"k": 2}, {"k": "a"}, {"k": None}, {"k": False}, {"k": True}, {"k": 0}, {"k": ""}, {"k": "2"}, {}]
     for f in ("where", "reject"):
-        add(Family(f, f, [lists(wr_elems, n4 - 1) + [[1, {"k": 2}], [{"k": 0.0}]], ["k"], [OMIT, 2, "a", 1, None]]))
+        add(Family(f, f, [lists(wr_elems, n4 - 1) + [[1, {"k": 2}], [{"k": 0.0}]], ["k"],
+                          [OMIT, 2, "a", 1, None, 0, "", False, 0.0, True, MISSING]]))
 
     starts = [-HUGE, -7, -3, -2, -1, 0, 1, 2, 3, 7, HUGE]
     lengths = [OMIT, -1, 0, 1, 2, 3, 7, HUGE]
